@@ -305,6 +305,13 @@ class SgzConverter(SgzReader):
             spec.samples = self.zslices
             spec.tracecount = self.tracecount
 
+        # The binary header is copied from the source SEG-Y file, its extended textual headers are not stored:
+        # leave (blank) room for as many as that header announces, so that the traces are found where it says
+        # Big-endian 16-bit field at bytes 3505-3506 (1-based) of the SEG-Y file header
+        n_extended_headers = struct.unpack(
+            '>h', self.headerbytes[DISK_BLOCK_BYTES+3504: DISK_BLOCK_BYTES+3506])[0]
+        spec.ext_headers = max(n_extended_headers, 0)
+
         # seimcic-zfp stores the binary header from the source SEG-Y file.
         # In case someone forgot to do this, give them IBM float
         # Big-endian 16-bit field at bytes 3225-3226 (1-based) of the SEG-Y file header
